@@ -188,7 +188,7 @@ static void gen_program(uint64_t rseed, uint64_t idx, const char *tier, sbuf_t *
     if (nt >= 8) ncalls = 2 + (int)rng_below(&r, 3);
     for (int i = 0; i < ncalls; i++) {
       sbuf_t t = { 0 };
-      genopt_t g = { rng_chance(&r, 1, 3) ? 200 : 70 };
+      genopt_t g = { rng_chance(&r, 1, 3) ? 200 : 70, rng_chance(&r, 1, 4) ? 6 : 0 };
       gen_case(&r, gen_all_ops[rng_below(&r, (uint64_t)nops)], &g, &t, 4 * (i % 3), 2 * (i % 3));
       for (char *q = strtok(t.s, "\n"); q; q = strtok(NULL, "\n")) sb_printf(o, "thread %d %s\n", k, q);
       free(t.s);
@@ -206,7 +206,7 @@ static const char *classify(const child_res_t *cr) {
   if (!sim_shared->completed) return "incomplete";
   return tv_names[sim_shared->aux[3]];
 }
-static const char *prop_of(const char *cls) { return (!strcmp(cls, "temporary_not_released") || !strcmp(cls, "invalid_or_double_free") || !strcmp(cls, "dirty_padding")) ? "C11" : "C15"; }
+static const char *prop_of(const char *cls) { return !strcmp(cls, "dirty_padding") ? "C10" : (!strcmp(cls, "temporary_not_released") || !strcmp(cls, "invalid_or_double_free")) ? "C11" : "C15"; }
 
 static int cmd_worker(int argc, char **argv) {
   if (argc < 7) return 2;
